@@ -595,3 +595,19 @@ Example C16_tzif_accept_examples_grammar :
   footer_rule_g file_berlin_v2 = Some (extra_rule example_berlin).
 Proof. exact accept_examples_g. Qed.
 Print Assumptions C16_tzif_accept_examples_grammar.
+
+(** the footer check of the reader against the calendar oracle, BOTH directions: inside the premise
+    [footer_dom] (the last transition time and its leap-corrected value are i64 values and, for an
+    alternating rule, C05's premise [rule_hyps] holds there) [footer_consistent] is true exactly when
+    the last transition's local time type is the type the rule has by the oracle of Spec/Zone.v.
+    Together with C16_tzif_v23_accepts_iff_grammar_partial this leaves reader code in the v2/3
+    acceptance statement only outside [footer_dom]. *)
+From V Require Import Proofs.TzFooterIff.
+Theorem C16_footer_consistent_iff : forall z,
+  leaps_spaced (leap_seconds z) -> zlen (leap_seconds z) <= 4294967295 ->
+  footer_dom z -> (footer_consistent z = true <-> footer_matches z).
+Proof. exact footer_consistent_iff. Qed.
+Print Assumptions C16_footer_consistent_iff.
+Theorem C16_footer_agrees_split : forall z, footer_agrees z <-> footer_dom z /\ footer_matches z.
+Proof. exact footer_agrees_split. Qed.
+Print Assumptions C16_footer_agrees_split.
